@@ -59,7 +59,10 @@ def run(chk):
     # (B3) the same on toy79 / toy31723 with the exact verdict (lucky accepts must be the specification's too)
     # (B3) the same on toy31723: TLC follows both roles' calls and the wire, and requires that whatever the code accepted is the proof the
     # prover sent (IdealIntegrity over the code's own verdict; an acceptance must repeat under fresh randomness to count)
-    vlib.toy_ideal(chk, "toy31723", progs if not q else progs[::2], "TraceIdealIntegrity", "integrity-toy", "tam31723")
+    # ... and that the verifier absorbed every proof element, as carried by the proof, before each challenge drawn after it - the combiner r on
+    # the transcript fork included (IntegrityOrder): a weight that does not depend on an element lets a coordinated change of two elements cancel
+    vlib.toy_ideal(chk, "toy31723", progs if not q else progs[::2], "TraceIdealIntegrity", "integrity-toy", "tam31723",
+                   fl=dict(vlib.flags(), CMP_I="1"))
     # every single-bit flip of the encoding, exhaustively
     shapes = [member(2, "good", "flip", chk.seed), two_phase(1, "flip", chk.seed + 1)] if q else \
              [member(n, "good", "flip", chk.seed + n) for n in (0, 1, 2, 3, 5, 8)] + [two_phase(n, "flip", chk.seed + 20 + n) for n in (1, 2, 3)]
@@ -88,7 +91,7 @@ def run(chk):
         rule="TLC checks EveryFieldWeighted / EveryFieldAbsorbed on the verifier model (n <= %d, sampled proof values) and prints one behaviour per "
              "(gate count, field, alteration): add a point, negate, add 1 to a scalar, swap two fields, add / remove / duplicate / reorder rounds; each is "
              "applied to an honest proof (one- and two-phase circuits) and must be rejected (or decode to the identical object) on secq256k1, zorro, "
-             "curve25519; on toy31723 TLC checks IdealIntegrity over the recorded runs; every single-bit flip of %d honest encodings per curve is tried "
+             "curve25519; on toy31723 TLC checks IdealIntegrity over the recorded runs and IntegrityOrder (every proof element absorbed before each later challenge, the fork's r included) on the verifier's recorded transcript operations; every single-bit flip of %d honest encodings per curve is tried "
              "exhaustively: decode error, identical object, or rejected by verify. distinct = distinct (curve, program, alteration) + sampled flip positions"
              % (maxn, len(shapes)),
         assumptions=["byte-level changes that decode to the identical proof object (unused flag bits, bytes after an infinity flag) are allowed, as the property states"])
